@@ -274,6 +274,82 @@ def rate_test_same_config(ctx, rates, ncalls, seed):
                             f"block with Config.sample_rate() = {r} on a config object used for blocks with rates {list(rates)}: {got} of {ncalls} calls reached the store, interval [{lo}, {hi}]", raise_=False)
 
 
+def _deep3(x):
+    return _deep2(x)
+
+
+def _deep2(x):
+    return _deep1(x)
+
+
+def _deep1(x):
+    return x
+
+
+def _countdown(n):
+    return 0 if n <= 0 else 1 + _countdown(n - 1)
+
+
+def rate_test_call_trees(ctx, rate, ncalls, seed):
+    """traced functions calling traced functions (a chain three deep, and recursion): every function is still traced in about
+    one of N of ITS calls - being called from a traced call neither exempts a call from the draw nor forces it"""
+    lg = CountBy()
+    random.seed(seed)
+    codes = (_deep1.__code__, _deep2.__code__, _deep3.__code__, _countdown.__code__)
+    with trace_calls(lg, 0, lambda c: c in codes, rate):
+        for i in range(ncalls):
+            _deep3(i)
+        for i in range(ncalls // 4):
+            _countdown(3)
+    spec = ["RATETREES", rate, ncalls, seed]
+    ctx.case(spec, True, ["rate-workload-call-trees:%s" % rate])
+    for fn, n in (("_deep3", ncalls), ("_deep2", ncalls), ("_deep1", ncalls), ("_countdown", ncalls)):
+        got = lg.by.get(fn, 0)
+        lo, hi = interval(n, 1.0 / rate)
+        if not lo <= got <= hi:
+            return ctx.fail("C18/traced-fraction-outside-binomial-bounds", spec,
+                            f"rate {rate}: {got} of {n} calls of {fn} traced (it is called from / calls other traced functions), acceptance interval [{lo}, {hi}]", raise_=False)
+
+
+def _make_primed(n):
+    def local_gen(x):
+        yield x
+        x = str(x)
+        yield x
+        yield 1.5
+
+    g = local_gen(n)
+    next(g)  # primed here, where its function is findable (a local of this frame) ...
+    return g  # ... and resumed by whoever receives it
+
+
+def rate_test_primed_generators(ctx, rate, ncalls, seed):
+    """a locally defined generator, primed by its definer and resumed from another stack, many times over: about one of its
+    calls in N is traced (a call that was not sampled leaves nothing behind that could affect later calls)"""
+    lg = Keep()
+    random.seed(seed)
+    code = [c for c in _make_primed.__code__.co_consts if hasattr(c, "co_name") and c.co_name == "local_gen"][0]
+    with trace_calls(lg, 0, lambda c: c is code, rate):
+        for i in range(ncalls):
+            g = _make_primed(i)
+            for _ in g:
+                pass
+    spec = ["RATEPRIMED", rate, ncalls, seed]
+    ctx.case(spec, True, ["rate-workload-primed-local-generators:%s" % rate])
+    got = len(lg.traces)
+    for t in lg.traces:
+        if dict(t.arg_types) != {"x": int}:
+            return ctx.fail("C18/argument-types-differ:generator-under-sampling", spec, f"local_gen called with an int logged with {t.arg_types}", raise_=False)
+    if rate in (None, 1):
+        if got != ncalls:
+            ctx.fail("C18/rate-unset-or-1-not-all-traced", spec, f"{got} of {ncalls} calls of a locally defined, primed generator traced with rate {rate}", raise_=False)
+        return
+    lo, hi = interval(ncalls, 1.0 / rate)
+    if not lo <= got <= hi:
+        ctx.fail("C18/traced-fraction-outside-binomial-bounds", spec,
+                 f"rate {rate}: {got} of {ncalls} calls of a locally defined generator (primed by its definer, resumed elsewhere) traced, acceptance interval [{lo}, {hi}]", raise_=False)
+
+
 def rate_test_nested(ctx, outer_rate, inner_rate, ncalls, seed):
     """a tracing context entered inside another one samples at ITS OWN rate and logs to ITS OWN logger"""
     outer, inner = Count(), Count()
@@ -473,7 +549,9 @@ def shard(ctx):
         if i % ctx.nshards == ctx.shard:
             rate_test(ctx, r, n if r != 100 else n, ctx.seed * 1000 + s)
             rate_test_config(ctx, r, n // 4, ctx.seed * 1000 + s + 3)
+            rate_test_primed_generators(ctx, r, n // 8, ctx.seed * 1000 + s + 41)
             if r not in (None, 1):
+                rate_test_call_trees(ctx, r, n // 4, ctx.seed * 1000 + s + 37)
                 rate_test_sessions(ctx, r, 3000 if q else 20000, ctx.seed * 1000 + s + 29)
             rate_test_same_config(ctx, [RATES[(i + j) % len(RATES)] for j in range(3)], n // 8, ctx.seed * 1000 + s + 31)
             async_generators(ctx, r, 300 if q else 3000, ctx.seed * 1000 + s + 17)
@@ -491,6 +569,10 @@ def run(ctx):
 def replay(ctx, case):
     if case[0] == "RATE":
         return rate_test(ctx, case[1], case[2], case[3])
+    if case[0] == "RATEPRIMED":
+        return rate_test_primed_generators(ctx, case[1], case[2], case[3])
+    if case[0] == "RATETREES":
+        return rate_test_call_trees(ctx, case[1], case[2], case[3])
     if case[0] == "RATESESSIONS":
         return rate_test_sessions(ctx, case[1], case[2], case[3])
     if case[0] == "RATESAMECFG":
